@@ -75,6 +75,7 @@ def run(ctx: Ctx, rep: Report) -> None:
     rep.adopt(sub, "C01-R10")
     rep.adopt_rules(ctx.sub_run("c03", rep), "C01-R11", ["C03-R2", "C03-R3"])
     rep.adopt_rules(ctx.sub_run("c15", rep), "C01-R12", ["C15-R4"], containing="walk")
+    rep.adopt_rules(ctx.sub_run("c12", rep), "C01-R12", ["C12-R4"], containing="only in Report")
 
 
 def fetcher_raises(ctx: Ctx, fn: FuncInfo, seam: Optional[FuncInfo], depth: int = 0, seen=None) -> List[Tuple[FuncInfo, ast.Raise, ClassInfo]]:
